@@ -339,67 +339,108 @@ def r5(p, rep):
                 rep.add("C04.R5", f"{f2.qualname}:{cname}:statement-inputs", site, not missing, f"Statement(inputs=...) lists {sorted(used)}" + ("" if not missing else f"; {sorted(missing)} missing: liveness / ordering ignores that dependency"))
 
 
+def _truth_facts(p, g):
+    """facts (test, polarity) under which predicate function g returns a truthy value, one list per such return"""
+    from sa.cfg import decompose
+
+    cfg = CFG(g.node)
+    out = []
+    for ret in walk_no_nested(g.node):
+        if isinstance(ret, ast.Return) and ret.value is not None and not (isinstance(ret.value, ast.Constant) and ret.value.value in (False, None)):
+            facts = cfg.guards(cfg.node_for(ret))
+            if not (isinstance(ret.value, ast.Constant) and ret.value.value is True):
+                facts = facts + decompose(ret.value, True)
+            out.append(facts)
+    return out
+
+
 def r6(p, rep):
     rep.rule("C04.R6", "name fusion only re-uses the name of an input variable that is dead and lives in the same block", "T-DER [S] (enumerated filter shapes)", floor=4)
-    f = compile_func(p)
-    fuse_calls = [n for n in walk_no_nested(f.node) if isinstance(n, ast.Call) and isinstance(n.func, ast.Name) and n.func.id == "fuse"]
-    if len(fuse_calls) != 1:
-        raise AnalysisError(f"unrecognised idiom: expected one fuse(...) call in compile(), found {len(fuse_calls)}")
-    fc = fuse_calls[0]
+    from sa.cfg import decompose
+
+    comp = compile_func(p)
+    scope = [g for g in p.funcs.values() if g.module is comp.module and (g is comp or g.parent is None)]
+    # the group-merging helper (by role): a nested function that re-points every member of one group to the other
+    # (`for v in g2: M[id(v)] = g1; g1.append(v)`), and its call site
+    sites = []
+    for host in scope:
+        for g in [x for x in p.funcs.values() if x.parent is host]:
+            merges = [l for l in walk_no_nested(g.node) if isinstance(l, ast.For) and any(isinstance(st, ast.Assign) and isinstance(st.targets[0], ast.Subscript) for st in l.body) and any(isinstance(st, ast.Expr) and isinstance(st.value, ast.Call) and norm(st.value.func).endswith(".append") for st in l.body)]
+            if not merges or len(g.params) != 2:
+                continue
+            for n in walk_no_nested(host.node):
+                if isinstance(n, ast.Call) and isinstance(n.func, ast.Name) and n.func.id == g.name and len(n.args) == 2:
+                    sites.append((host, g, n))
+    if len(sites) != 1:
+        raise AnalysisError(f"unrecognised idiom: expected one call of the group-merging helper in the code generator, found {len(sites)}")
+    f, fuse, fc = sites[0]
     site = f"{f.module.rel}:{fc.lineno}"
     a0 = fc.args[0]
     if not isinstance(a0, ast.Name):
-        raise AnalysisError("unrecognised idiom: fuse() first argument is not a name")
-    # a0 <- X.pop()  ;  X <- chain of set comprehensions
+        raise AnalysisError("unrecognised idiom: first argument of the group-merging call is not a name")
     loop = enclosing(fc, ast.For)
+    if loop is None:
+        raise AnalysisError("unrecognised idiom: group merging is not done inside the statement loop")
     pops = [n for n in ast.walk(loop) if isinstance(n, ast.Assign) and any(isinstance(t, ast.Name) and t.id == a0.id for t in n.targets)]
     if len(pops) != 1 or not (isinstance(pops[0].value, ast.Call) and isinstance(pops[0].value.func, ast.Attribute) and pops[0].value.func.attr == "pop"):
-        raise AnalysisError("unrecognised idiom: fused input variable is not obtained by <set>.pop()")
+        raise AnalysisError("unrecognised idiom: the fused input variable is not obtained by <set>.pop()")
     setname = norm(pops[0].value.func.value)
     comps = [n for n in ast.walk(loop) if isinstance(n, ast.Assign) and any(norm(t) == setname for t in n.targets) and isinstance(n.value, ast.SetComp) and n.lineno < pops[0].lineno]
+    # collect all conditions a candidate has to satisfy (comprehension filters, expanded through local predicates)
     conds = []
+    localfns = {g.name: g for g in p.funcs.values() if g.parent is f or g.parent is comp}
     for c in comps:
-        g = c.value.generators[0]
-        var = g.target.id if isinstance(g.target, ast.Name) else None
-        for cond in g.ifs:
-            conds.append((var, cond))
-    texts = [norm(c) for _, c in conds]
-    rep.info["fusion_filters"] = texts
+        for cond in c.value.generators[0].ifs:
+            for t, pol in decompose(cond, True):
+                if pol and isinstance(t, ast.Call) and isinstance(t.func, ast.Name) and t.func.id in localfns:
+                    tf = _truth_facts(p, localfns[t.func.id])
+                    if len(tf) == 1:
+                        conds += tf[0]
+                        continue
+                conds.append((t, pol))
+    texts = [(norm(t), pol) for t, pol in conds]
+    rep.info["fusion_filters"] = [t if pol else f"not ({t})" for t, pol in texts]
     # (1) allow_reusing_name
-    ok1 = any(isinstance(c, ast.Attribute) and c.attr == "allow_reusing_name" for _, c in conds)
-    rep.add("C04.R6", f"{f.qualname}:fuse:allow_reusing_name", site, ok1, "candidates are filtered by allow_reusing_name" if ok1 else "imports / constants (allow_reusing_name=False) can lose their name to another value")
+    ok1 = any(isinstance(t, ast.Attribute) and t.attr == "allow_reusing_name" and pol for t, pol in conds)
+    rep.add("C04.R6", f"{comp.qualname}:fuse:allow_reusing_name", site, ok1, "candidates are filtered by allow_reusing_name" if ok1 else "imports / constants (allow_reusing_name=False) can lose their name to another value")
 
     def all_over_dependents(c):
-        """all(<elt> for <s> in <dependents>[id(v)]) -> (elt, s) or None"""
+        """all(<elt> for <s> in <dependents of v>) -> elt or None"""
         if isinstance(c, ast.Call) and isinstance(c.func, ast.Name) and c.func.id == "all" and c.args and isinstance(c.args[0], ast.GeneratorExp):
             ge = c.args[0]
+            if len(ge.generators) != 1 or ge.generators[0].ifs:
+                return None
             it = ge.generators[0].iter
-            if isinstance(it, ast.Subscript) and "dependent" in norm(it.value) and not ge.generators[0].ifs and len(ge.generators) == 1:
-                return ge.elt, ge.generators[0].target
+            txt = norm(it)
+            if isinstance(it, ast.Name):
+                ds = [n.value for g_ in list(localfns.values()) + [f] for n in ast.walk(g_.node) if isinstance(n, ast.Assign) and any(isinstance(t, ast.Name) and t.id == it.id for t in n.targets)]
+                txt = " ".join(norm(d) for d in ds)
+            if "dependent" in txt and "[id(" in txt:
+                return ge.elt
         return None
 
-    # (2) every dependent statement is in the same block
-    ok2 = False
-    for var, c in conds:
-        r = all_over_dependents(c)
-        if r and isinstance(r[0], ast.Compare) and isinstance(r[0].ops[0], ast.Eq) and ".block" in norm(r[0].left) and ".block" in norm(r[0].comparators[0]):
+    ok2 = ok3 = False
+    for t, pol in conds:
+        if not pol:
+            continue
+        elt = all_over_dependents(t)
+        if elt is None or not isinstance(elt, ast.Compare):
+            continue
+        if isinstance(elt.ops[0], ast.Eq) and ".block" in norm(elt.left) and ".block" in norm(elt.comparators[0]):
             ok2 = True
-    rep.add("C04.R6", f"{f.qualname}:fuse:same-block-dependents", site, ok2, "all dependent statements of the candidate are in the statement's block" if ok2 else "the filter `every dependent statement lives in this block` is missing: a value still needed by a nested function (closure, late binding) can be overwritten")
-    # (3) every dependent statement has already been emitted (dead afterwards)
-    ok3 = False
-    for var, c in conds:
-        r = all_over_dependents(c)
-        if r and isinstance(r[0], ast.Compare) and isinstance(r[0].ops[0], ast.In) and norm(r[0].left).startswith("id(") and "seen" in norm(r[0].comparators[0]):
+        if isinstance(elt.ops[0], ast.In) and norm(elt.left).startswith("id(") and "seen" in norm(elt.comparators[0]):
             ok3 = True
-    rep.add("C04.R6", f"{f.qualname}:fuse:dead-after", site, ok3, "all dependent statements of the candidate were already seen (the value is dead after this statement)" if ok3 else "the liveness filter is not `all(id(dependent) in seen ...)` over ALL dependents of the variable: a name can be re-used while its old value is still needed")
-    # (4) guarded by equal blocks of the two variables
+    rep.add("C04.R6", f"{comp.qualname}:fuse:same-block-dependents", site, ok2, "all dependent statements of the candidate are in the statement's block" if ok2 else "the filter `every dependent statement lives in this block` is missing: a value still needed by a nested function (closure, late binding) can be overwritten")
+    rep.add("C04.R6", f"{comp.qualname}:fuse:dead-after", site, ok3, "all dependent statements of the candidate were already seen (the value is dead after this statement)" if ok3 else "the liveness filter is not `all(id(dependent) in seen ...)` over ALL dependents of the variable: a name can be re-used while its old value is still needed")
     cfg = CFG(f.node)
-    facts = [norm(t) for t, pol in cfg.guards_of_ast(fc) if pol]
-    ok4 = any(".block" in t and ("==" in t or " is " in t) for t in facts)
-    rep.add("C04.R6", f"{f.qualname}:fuse:same-block-pair", site, ok4, "fuse() only when input and output variable live in the same block" if ok4 else "fuse() is not guarded by equal blocks of the two variables")
-    # (5) exactly one candidate and exactly one output
-    ok5 = sum(1 for t in facts if t.startswith("len(") and t.endswith("== 1")) >= 2
-    rep.add("C04.R6", f"{f.qualname}:fuse:unique", site, ok5, "exactly one output and exactly one dead input" if ok5 else "fusion is not restricted to a unique output / unique dead input")
+    facts = cfg.guards_of_ast(fc)
+    ok4 = any(pol and ".block" in norm(t) and ("==" in norm(t) or " is " in norm(t)) for t, pol in facts)
+    rep.add("C04.R6", f"{comp.qualname}:fuse:same-block-pair", site, ok4, "merge only when input and output variable live in the same block" if ok4 else "the merge is not guarded by equal blocks of the two variables")
+    out_pop = [n for n in ast.walk(loop) if isinstance(n, ast.Assign) and isinstance(n.value, ast.Call) and isinstance(n.value.func, ast.Attribute) and n.value.func.attr == "pop" and n is not pops[0]]
+    b1 = common.len_bounds(facts, setname)
+    b2 = common.len_bounds(facts, norm(out_pop[0].value.func.value)) if out_pop else (0, None)
+    ok5 = b1 == (1, 1) and b2 == (1, 1)
+    rep.add("C04.R6", f"{comp.qualname}:fuse:unique", site, ok5, "exactly one output and exactly one dead input" if ok5 else f"fusion is not restricted to a unique output / unique dead input (bounds {b2} / {b1})")
 
 
 def r7(p, rep):
